@@ -93,7 +93,9 @@ CHECKS = {
              'reordered; between KEXINIT and NEWKEYS only kex/transport '
              'messages appear on the wire; post-NEWKEYS traffic decodes only '
              'with keys derived from the new (K,H) and the original session '
-             'id; every exchange has a distinct (K,H).',
+             'id; every exchange has a distinct (K,H); key exchanges that '
+             'follow each other without connection-layer traffic are '
+             'reported as a re-key loop (logical-step progress monitor).',
         note='trusted: refssh codec; (K,H) capture from send_newkeys '
              'arguments for the passive tap (the active reference peer needs '
              'no capture)',
@@ -196,7 +198,9 @@ CHECKS = {
              'size.  Receiver side: a reference peer overruns the '
              'advertised window (also while reading is paused) and the '
              'connection must end with an error.  Progress: with a reading '
-             'receiver everything written arrives by quiescence.',
+             'receiver (chunks, or lines longer than its window) everything '
+             'written arrives by quiescence; packet sizes 1-3 combined with '
+             'the dropbear allowance are sent to under a work meter.',
         note='trusted: independent RFC 4253 codec in vf/refssh.py (built on '
              'cryptography/hashlib only), key capture from send_newkeys '
              'arguments for the passive tap',
